@@ -130,6 +130,13 @@ def show_val(v):
 def env_of(case):
     cmdline, author_is_admin, author_bypass, comments = case
     admins = ['admin'] + ([PR_AUTHOR] if author_is_admin else [])
+    # the `admins` setting is a plain list: in a third of the cases an admin is named more than once
+    # (membership must not depend on multiplicity)
+    k = sum(len(t) for _, t in comments) % 3
+    if k == 1:
+        admins = admins + admins[-1:]
+    elif k == 2:
+        admins = admins[-1:] + admins
     return admins
 
 
